@@ -6,6 +6,11 @@ from . import c04
 
 FROM_FILE_NAME = "liwe::model::Key::from_file_name"
 FROM_REL = "liwe::model::Key::from_rel_link_url"
+# string operations that can drop or change part of a url
+STRING_CUTS = {"split", "split_once", "rsplit_once", "rsplit", "splitn", "rsplitn", "split_at", "split_terminator", "split_whitespace", "split_inclusive", "lines",
+               "trim", "trim_start", "trim_end", "trim_matches", "trim_start_matches", "trim_end_matches", "strip_prefix", "strip_suffix",
+               "replace", "replacen", "to_lowercase", "to_uppercase", "to_ascii_lowercase", "to_ascii_uppercase", "truncate", "drain", "pop", "remove", "retain",
+               "get", "get_unchecked", "find", "rfind", "chars", "char_indices", "bytes", "index", "split_off"}
 
 # audited callers of Key::from_file_name whose argument is a *library-relative file name* (never a link url)
 FILE_NAME_CALLERS = {
@@ -74,6 +79,18 @@ def rule_r2(facts, rep, rid="C05-R2"):
                 rep.ok(rid, key, "directory argument derives from Key::parent() / a relative_to parameter", loc(f, call))
             else:
                 rep.violation(rid, key, "second argument of from_rel_link_url is not derived from the containing note's parent(): %s" % sorted(pv)[:6], loc(f, call))
+            # ... and the first is the url as written: cutting it (at a `#`, a `?`, a prefix, by case) before it is resolved makes the key - which is all that is written back -
+            # name another destination than the text did
+            if "random_key" in f.def_:
+                continue        # a generated candidate name, not a url read from a note
+            pu = c.vprov(call["args"][0])
+            cuts = sorted(set(fb.last_seg(a[1]) for a in pu if a[0] == "call" and fb.last_seg(a[1]) in STRING_CUTS))
+            key = "%s|from_rel_link_url(url-as-written)|%d" % (f.def_, i)
+            if cuts:
+                rep.violation(rid, key, "the url handed to Key::from_rel_link_url has been through %s: part of the destination the author wrote is dropped before the link is resolved "
+                              "(the key is all that is written back, so the link is retargeted)" % ", ".join("`%s`" % x for x in cuts), loc(f, call))
+            else:
+                rep.ok(rid, key, "url passed as written", loc(f, call))
     rep.floor(rid, "call sites of Key::from_rel_link_url", m, 5)
 
 
